@@ -12,7 +12,7 @@ from cgv.symgraph import MISSING, TS, TYPES, UNSUPPORTED
 META = {
     "level": "model_checking",
     "engine": "E2 lazy-fork symbolic execution of the real utils.lint (with the real Circuit accessors) on an arbitrary symbolic graph (no legality pre-condition: presence, type incl. unsupported/missing, output flag, every edge incl. self-loops are z3 variables); per path z3 proves  documented-rule-violated => raises ValueError  and  raises => some documented (or documented-ambiguous) rule violated",
-    "hashseeds": {"quick": [0], "thorough": [0, 1]},
+    "hashseeds": {"quick": [0], "thorough": [0]},
     "shards": {"quick": 16, "thorough": 8},
     "exhaustive_within_bound": True,
     "bounds": {
